@@ -365,6 +365,9 @@ const END_FINISHED: u8 = 1;
 const END_DROPPED: u8 = 2;
 const END_PANICKED: u8 = 3;
 
+/// receivers dropped by the dispatching thread right after `dispatch` returned Ok
+static FORGOTTEN: AtomicU64 = AtomicU64::new(0);
+
 struct Rec {
     id: u32,
     body: Body,
@@ -1017,6 +1020,12 @@ fn run_case(case: &Case, sched_seed: u64, progress: &Arc<Progress>) -> Obs {
                                         mine.push((r.clone(), rx));
                                     }
                                 }
+                            } else if rng.chance(1, 5) {
+                                // fire and forget: the caller lets go of the receiver at once;
+                                // the accepted closure must be started all the same
+                                drop(rx);
+                                r.rx_state.store(5, SeqCst);
+                                FORGOTTEN.fetch_add(1, SeqCst);
                             } else {
                                 mine.push((r.clone(), rx));
                             }
@@ -1566,6 +1575,7 @@ fn eval_case(rep: &mut Report, case: &Case, sched_seed: u64) -> (bool, bool) {
     rep.count("tasks_dispatched", obs.recs.iter().filter(|r| r.accepted.load(SeqCst) != 0).count() as i64);
     rep.count("tasks_started", obs.recs.iter().filter(|r| r.starts.load(SeqCst) > 0).count() as i64);
     rep.count("receivers_cancelled", v.cancelled_rx as i64);
+    rep.count("receivers_dropped_at_once_by_caller", FORGOTTEN.swap(0, SeqCst) as i64);
     rep.count("dispatch_rejected", v.rejected as i64);
     rep.count("census_late_reaps", (obs.census_late > 0) as i64);
     rep.max("workers", case.workers as i64);
